@@ -54,6 +54,20 @@ class _Rewrite(ast.NodeTransformer):
         return node
 
 
+class _Branch(ast.NodeTransformer):
+    """`if amp > 0: A else: B`  ->  A (positive) or B (negative): real mode has no comparisons, so the two sign
+    branches of the amplitude bounds are regenerated as two sets of definitions"""
+
+    def __init__(self, positive):
+        self.positive = positive
+
+    def visit_If(self, node):
+        self.generic_visit(node)
+        if ast.unparse(node.test) == 'amp > 0':
+            return node.body if self.positive else node.orelse
+        return node
+
+
 def _expose_args(body):
     """prepend `p2s_arg_* = …` / `s2p_arg_* = …` before calls of pix2sky_ellipse / sky2pix_ellipse"""
     out = []
@@ -88,10 +102,12 @@ def _wrap_find(orig):
         if '#c01' not in qualname:
             return orig(tree, qualname)
         base, tag = qualname.split('#', 1)
-        cut = tag == 'c01loop'
+        cut = 'loop' in tag
         fn = orig(tree, base)
         if True:
             fn = copy.deepcopy(fn)
+            if tag.endswith('pos') or tag.endswith('neg'):
+                fn = _Branch(tag.endswith('pos')).visit(fn)
             if cut:
                 loops = [s for s in fn.body if isinstance(s, ast.For)]
                 if not loops:
@@ -115,6 +131,18 @@ def _wrap_expr(orig):
                 and node.args[0].value in (2, 2.0) and not isinstance(node.args[0].value, bool):
             ssa, t = self.env['ln2']
             return ssa, t, {ssa}
+        if 'ln2' in self.params and isinstance(node, ast.BinOp) and isinstance(node.op, ast.Pow) \
+                and isinstance(node.left, ast.Constant) and node.left.value in (2, 2.0) \
+                and not isinstance(node.left.value, bool) and not isinstance(node.right, ast.Constant):
+            # 2.0 ** e  =  exp(ln 2 * e)
+            c, _, d = self.expr(node.right)
+            ssa, _t = self.env['ln2']
+            return f"(R.exp ({ssa} * {c}))", 'A', d | {ssa}
+        if 'ln2' in self.params and isinstance(node, ast.Call) and isinstance(node.func, ast.Name) \
+                and node.func.id in ('min', 'max') and len(node.args) == 2 and not node.keywords:
+            a, _, da = self.expr(node.args[0])
+            b, _, db = self.expr(node.args[1])
+            return f"({'R.min' if node.func.id == 'min' else 'R.max'} {a} {b})", 'A', da | db
         return orig(self, node)
     expr_real._c01 = True
     return expr_real
@@ -156,7 +184,26 @@ def _mk_rtc():
     return out
 
 
-TARGETS = [
+_BP = ['ln2', 'FWHM2CC', 'amp0', 'rms', 'innerclip', 'outerclip', 'pbA', 'pbB', 'xsize', 'ysize']
+_BSUB = {'amp': 'amp0', 'rmsimg[xo, yo]': 'rms', 'pixbeam.a': 'pbA', 'pixbeam.b': 'pbB',
+         'data.shape[0]': 'xsize', 'data.shape[1]': 'ysize'}
+
+
+def _mk_bounds():
+    """the bounds `estimate_lmfit_parinfo` puts on a component (one target per output: fixed parameter lists)"""
+    out = []
+    pos = [('sampling', 'sampling'), ('amp_min', 'ampMinPos'), ('amp_max', 'ampMaxPos'), ('xo_lim', 'xoLim'),
+           ('sx', 'sxInit'), ('sy', 'syInit'), ('sx_min', 'sxMin'), ('sx_max', 'sxMax'), ('sy_min', 'syMin'), ('sy_max', 'syMax')]
+    neg = [('amp_min', 'ampMinNeg'), ('amp_max', 'ampMaxNeg')]
+    for tag, lst in (('pos', pos), ('neg', neg)):
+        for var, lname in lst:
+            out.append(dict(file='AegeanTools/source_finder.py', func='SourceFinder.estimate_lmfit_parinfo#c01loop' + tag,
+                            mode='real', params={p: 'A' for p in _BP}, subst=_BSUB, outputs=[(var, lname)],
+                            fallback={lname: _fb(lname, _BP)}, all_params=_BP))
+    return out
+
+
+TARGETS = _mk_bounds() + [
     dict(file='AegeanTools/fitting.py', func='elliptical_gaussian', mode='real',
          params={p: 'A' for p in _G}, subst={}, outputs=[], returns='gauss',
          fallback={'gauss': _fb('gauss', _G)}, all_params=_G),
